@@ -304,6 +304,7 @@ func (p *Path) Concretize(t *Term) uint64 {
 	if t.IsConst() {
 		return t.C
 	}
+	p.symbolicObligations++
 	for {
 		if len(p.trace) < len(p.prefix) {
 			d := p.prefix[len(p.trace)]
